@@ -286,7 +286,14 @@ fn operand(rng: &mut Rng, vi: usize) -> String {
         7 => { s.truncate(rng.below(s.len() as u64 + 1) as usize); }
         8 => { s.push(b'0'); }
         9 => { if with_prefix { s[1] = b'2'; } else { s.insert(0, b'T'); s.insert(1, b'1'); s.pop(); } }
-        10 => { let p = rng.below(s.len() as u64) as usize; let mut t = s[..p].to_vec(); t.extend_from_slice("é".as_bytes()); t.extend_from_slice(&s[(p + 2).min(s.len())..]); s = t; }
+        10 => {
+            // a multi-byte character replacing as many bytes (length preserved); half of the time near the
+            // start, so that it straddles the prefix boundary (byte offsets 1..3)
+            let ch: &str = *rng.pick(&["é", "€", "𝄞"]);
+            let p = if rng.chance(1, 2) { rng.below(4) as usize } else { rng.below(s.len() as u64) as usize };
+            let p = p.min(s.len());
+            let mut t = s[..p].to_vec(); t.extend_from_slice(ch.as_bytes()); t.extend_from_slice(&s[(p + ch.len()).min(s.len())..]); s = t;
+        }
         _ => { s.clear(); }
     }
     String::from_utf8(s).unwrap_or_default()
